@@ -413,7 +413,7 @@ package parse
 //@   ensures[S]  arg0 != nil && len(arg0) >= arg1 && result0 != nil ==> sameMem(result0, arg0[0:len(result0)])
 //@   ensures[F]  @length: arg1 > 0 && result1 == nil ==> len(result0) == arg1 && arg2 + arg1 <= clen(recv)
 //@   ensures[F]  @content: forall(i, 0, len(result0), result0[i] == content(recv, arg2 + i))
-//@   ensures[F]  @frame: ite(arg0 == nil, sameBytes(), sameBytesExcept(ptr(arg0), ptr(arg0) + len(arg0)))
+//@   ensures[F]  @frame: ite(arg0 == nil, sameBytesExcept(0, 0), sameBytesExcept(ptr(arg0), ptr(arg0) + len(arg0)))
 
 // the in-memory back end defines the abstract view as its data slice
 //@ pred bytesView(r) := clen(r) == len(r.data) && forall(i, 0, len(r.data), content(r, i) == r.data[i])
@@ -614,47 +614,84 @@ package parse
 // (they hold for every reader by construction) and are therefore assumed at call sites and not imposed on implementations.
 //@ ghost stream(r, i) byte
 //@ ghostfield delivered
+// slen(r): the total number of bytes reader r will ever deliver (ghost); what has been delivered lies within it
+//@ ghost slen(r)
 //@ iface io.Reader.Read
 //@   modifies M.uint8, G.delivered
 //@   ensures[S] 0 <= result0 && result0 <= len(arg0)
 //@   ensures[F] @frame: sameBytesExcept(ptr(arg0), ptr(arg0) + len(arg0))
 //@   ensures[F,ghost] @count: delivered(recv) == old(delivered(recv)) + result0 && old(delivered(recv)) >= 0
 //@   ensures[F,ghost] @data: forall(k, 0, result0, arg0[k] == stream(recv, old(delivered(recv)) + k))
+//@   ensures[F,ghost] @within: delivered(recv) <= slen(recv)
+// ralen(r), radata(r, i): the data behind an io.ReaderAt (ghost). The documented contract of ReadAt: it reads into p only,
+// the bytes it reports are the data at off.., they exist, and fewer than len(p) bytes come with an error.
+//@ ghost ralen(r)
+//@ ghost radata(r, i) byte
 //@ iface io.ReaderAt.ReadAt
 //@   modifies M.uint8
 //@   ensures[S] 0 <= result0 && result0 <= len(arg0)
+//@   ensures[F,ghost] @frame: sameBytesExcept(ptr(arg0), ptr(arg0) + len(arg0))
+//@   ensures[F,ghost] @data: forall(k, 0, result0, arg0[k] == radata(recv, arg1 + k))
+//@   ensures[F,ghost] @within: result0 > 0 ==> arg1 >= 0 && arg1 + result0 <= ralen(recv)
+//@   ensures[F,ghost] @full: result1 == nil ==> result0 == len(arg0)
 //@ iface io.Seeker.Seek
 //@   modifies nothing
 //@   ensures[S] true
+// Ghost model of a seekable stream: sdata(r, i) the data, sdlen(r) their length, spos(r) the current offset. Seek from
+// the start (whence 0) that succeeds moves the offset there; Read delivers the bytes at the offset and advances it.
+//@ ghost sdlen(r)
+//@ ghost sdata(r, i) byte
+//@ ghostfield spos
 //@ iface io.ReadSeeker.Read
-//@   modifies M.uint8
+//@   modifies M.uint8, G.spos
 //@   ensures[S] 0 <= result0 && result0 <= len(arg0)
+//@   ensures[F,ghost] @frame: sameBytesExcept(ptr(arg0), ptr(arg0) + len(arg0))
+//@   ensures[F,ghost] @count: spos(recv) == old(spos(recv)) + result0
+//@   ensures[F,ghost] @data: forall(k, 0, result0, arg0[k] == sdata(recv, old(spos(recv)) + k))
+//@   ensures[F,ghost] @within: result0 > 0 ==> old(spos(recv)) >= 0 && spos(recv) <= sdlen(recv)
 //@ iface io.ReadSeeker.Seek
-//@   modifies nothing
+//@   modifies G.spos
 //@   ensures[S] true
+//@   ensures[F,ghost] @set: result1 == nil && arg1 == 0 ==> spos(recv) == arg0
 
+// the io.Reader back end: reads sequentially, so its abstract view is the reader's whole stream, its position the number
+// of bytes the reader has delivered; the length its client stated at construction is assumed to be the stream's length
+//@ pred rrView(r) := clen(r) == r.size && r.size == slen(r.r) && r.pos == delivered(r.r) && r.pos >= 0 && forall(i, 0, r.size, content(r, i) == stream(r.r, i))
 //@ func binaryReaderReader.Bytes
-//@   assumefacet F
-//@   requires[S] r != nil && r.r != nil && (b == nil || len(b) >= n) && n <= (1<<50)
+//@   requires[S] r != nil && r.r != nil && (b == nil || len(b) == n) && n <= (1<<50)
+//@   requires[F] rrView(r)
+//@   ensures[F]  @view: rrView(r)
 //@   loop 1 invariant 0 <= i && i <= n && b != nil && len(b) == n
+//@   loop 1 invariant[F] r.pos == off + i && (i > 0 ==> r.pos <= r.size) && rrView(r) && forall(k, 0, i, b[k] == stream(r.r, off + k)) && (sameSlice(b, old(b)) || old(b) == nil)
+//@   loop 1 invariant[F] ite(old(b) == nil, sameBytesExcept(0, 0), sameBytesExcept(ptr(old(b)), ptr(old(b)) + len(old(b))))
+//@   loop 1 decreases n - i
+// the io.ReadSeeker back end seeks to the offset and reads sequentially from there
+//@ pred rsView(r) := clen(r) == r.size && r.size == sdlen(r.r) && forall(i, 0, r.size, content(r, i) == sdata(r.r, i))
 //@ func binaryReaderSeeker.Bytes
-//@   assumefacet F
-//@   requires[S] r != nil && r.r != nil && (b == nil || len(b) >= n) && n <= (1<<50)
+//@   requires[S] r != nil && r.r != nil && (b == nil || len(b) == n) && n <= (1<<50)
+//@   requires[F] rsView(r)
+//@   ensures[F]  @view: rsView(r)
 //@   loop 1 invariant 0 <= i && i <= n && b != nil && len(b) == n
+//@   loop 1 invariant[F] spos(r.r) == off + i && (i > 0 ==> off >= 0 && off + i <= r.size) && rsView(r) && forall(k, 0, i, b[k] == sdata(r.r, off + k)) && (sameSlice(b, old(b)) || old(b) == nil)
+//@   loop 1 invariant[F] ite(old(b) == nil, sameBytesExcept(0, 0), sameBytesExcept(ptr(old(b)), ptr(old(b)) + len(old(b))))
+//@   loop 1 decreases n - i
+// the io.ReaderAt back end: its abstract view is the data behind the reader; the length its client stated at construction
+// is assumed to be the length of that data
+//@ pred raView(r) := clen(r) == r.size && r.size == ralen(r.r) && forall(i, 0, r.size, content(r, i) == radata(r.r, i))
 //@ func binaryReaderReaderAt.Bytes
-//@   assumefacet F
-//@   requires[S] r != nil && r.r != nil && (b == nil || len(b) >= n) && n <= (1<<50)
+//@   requires[S] r != nil && r.r != nil && (b == nil || len(b) == n) && n <= (1<<50)
+//@   requires[F] raView(r)
 
 // the stream back ends are constructed with the length their client states; it is assumed non-negative and small
 //@ func binaryReaderReader.Len
-//@   assumefacet F
 //@   requires[S] r != nil && r.size >= 0 && smallInt(r.size)
+//@   requires[F] rrView(r)
 //@ func binaryReaderSeeker.Len
-//@   assumefacet F
 //@   requires[S] r != nil && r.size >= 0 && smallInt(r.size)
+//@   requires[F] rsView(r)
 //@ func binaryReaderReaderAt.Len
-//@   assumefacet F
 //@   requires[S] r != nil && r.size >= 0 && smallInt(r.size)
+//@   requires[F] raView(r)
 //@ iface io.Writer.Write
 //@   readonly arg0
 //@   ensures[S] true
